@@ -175,14 +175,17 @@ def _rand_val(rnd, depth):
     if depth <= 0 or r < 0.6:
         return rnd.choice(_SCAL)
     if r < 0.8:
-        return [rnd.choice([1, 1.0, True, "a", None, 2, 0, False]) for _ in range(rnd.randrange(0, 3))]
-    keys = rnd.sample(["x", "y", "z"], rnd.randrange(1, 3))
+        if rnd.random() < 0.2:      # nested lists (positions 0.1 ... of a list are not keys)
+            return [[rnd.choice([1, 2, 5, 6, "a"]) for _ in range(rnd.randrange(1, 3))] for _ in range(rnd.randrange(1, 3))]
+        return [rnd.choice([1, 1.0, True, "a", None, 2, 0, False, 5, 6]) for _ in range(rnd.randrange(0, 3))]
+    # digit-named keys next to lists under the same key in other jobs
+    keys = rnd.sample(["x", "y", "z", "0", "1", "10"] if rnd.random() < 0.5 else ["0", "1", "2"], rnd.randrange(1, 3))
     return {k: _rand_val(rnd, depth - 1) for k in keys}
 
 
 def _rand_corpus(rnd):
     n = rnd.choice([0, 1, 2, 2, 3, 3, 4, 5, 6, 7, 8])
-    pool = rnd.sample(["a", "b", "c", "n", "k ü"], rnd.randrange(1, 4))
+    pool = rnd.sample(["a", "b", "c", "n", "k ü", "0", "10", "-1", "1e3"], rnd.randrange(1, 4))
     sps, seen = [], set()
     for _ in range(n * 3):
         if len(sps) == n:
